@@ -27,6 +27,9 @@ func main() {
 	if v := os.Getenv("VERIF_DIR"); v != "" {
 		verifDir = v
 	}
+	if v := os.Getenv("VERIF_REPO"); v != "" {
+		repoDir = v
+	}
 	nworkers := runtime.NumCPU()
 	if v := os.Getenv("VERIF_WORKERS"); v != "" {
 		nworkers = atoi(v)
